@@ -126,6 +126,10 @@ func runC13(c *Ctx) {
 			user.Claims[k] = []any{nil, []any{}, map[string]any{}, false}[c.T.Choose(4)]
 		}
 		code = c.W.IdP.NewCode(user)
+	case "expired":
+		// expired a few seconds, a minute or ten minutes ago: expired is expired
+		c.W.IdP.ExpiredBy = []time.Duration{2 * time.Second, 20 * time.Second, 59 * time.Second, 3 * time.Minute, 10 * time.Minute}[c.T.Choose(5)]
+		c.W.IdP.TokenFault = failure
 	default:
 		c.W.IdP.TokenFault = failure
 	}
@@ -410,7 +414,7 @@ func runC12(c *Ctx) {
 		path += "?host=" + url.QueryEscape(c.Arg["q"])
 	}
 	// the requesting client address: peer or first X-Forwarded-For element
-	clientIP := []string{"10.2.0.5", "2001:db8::5", "192.0.2.77"}[c.T.Choose(3)]
+	clientIP := []string{"10.2.0.5", "2001:db8::5", "192.0.2.77", "2001:db8::7:20", "fe80::1:2", "::ffff:10"}[c.T.Choose(6)]
 	b := c.W.NewBrowser("b1", peerOf(clientIP, 51000))
 	if c.T.Bool(1, 3) {
 		b.From = "10.200.0.1:4000"
@@ -443,8 +447,22 @@ func runC12(c *Ctx) {
 		b.From, b.XFF = "198.51.100.44:50123", ""
 		descr += " login-from=198.51.100.44"
 	}
+	// some providers issue access tokens of several kilobytes; a session that cannot hold one
+	// may fail to be established, but a file that is issued must still carry that token
+	bigToken := c.T.Bool(1, 8)
+	if bigToken {
+		c.W.IdP.TokenPad = 2500 + c.T.Choose(6000)
+		descr += fmt.Sprintf(" idp-access-token-of-%d-characters", c.W.IdP.TokenPad)
+	}
 	ok0, cb := b.Login("/connect", user)
+	c.W.IdP.TokenPad = 0
 	b.From, b.XFF = dlFrom, dlXFF
+	if !ok0 && bigToken {
+		c.S.Count("probe.session_too_large_for_store")
+		c.Res.Reach = true
+		c.Samplef("%s session=login-failed(%d): nothing issued", descr, cb.Status)
+		return
+	}
 	if !ok0 {
 		c.S.Fail("C13", "valid-login-not-authenticated", "%s: login failed: callback %d %.100q", descr, cb.Status, cb.Body)
 		return
